@@ -452,9 +452,9 @@ func init() {
 		obsClaims := func(v any) string { cl := v.(psatoken.IClaims); return getterVector(cl) + encObs(cl) }
 		return func(c *choice.Ctx) {
 			ci := c.Choose("claims", len(seeds))
-			entry := c.Choose("entry", 7)
+			entry := c.Choose("entry", 8)
 			mode := c.Choose("scribble", 3)
-			if !c18Mine(ci*7 + entry) {
+			if !c18Mine(ci*8 + entry) {
 				return
 			}
 			a := seeds[ci]
@@ -482,6 +482,22 @@ func init() {
 				}, func(v any) string {
 					ev := v.(*psatoken.Evidence)
 					return fmt.Sprint(ev.Verify(k1.Pub) == nil) + getterVector(ev.Claims) + encObs(ev.Claims)
+				}, mode)
+			case 7: // a derived profile with a claim kept in encoded form
+				if a.P != 2 {
+					return
+				}
+				raw := *a
+				raw.Canon, raw.Profile = ExtRawName, sp(ExtRawName)
+				t := wireTree(&raw, true)
+				t.Put(mcbor.I(-75600), mcbor.M(mcbor.T("vendor"), mcbor.A(mcbor.U(1), mcbor.B([]byte{9, 9, 9}))))
+				c18Alias(c, c18stats, "DecodeClaimsFromCBOR(raw-claim profile)", mcbor.Encode(t), func(b []byte) (any, error) { return psatoken.DecodeClaimsFromCBOR(b) }, func(v any) string {
+					cl := v.(psatoken.IClaims)
+					o := ""
+					if rc, ok := cl.(*ExtRawClaims); ok {
+						o = fmt.Sprintf("%x", []byte(rc.Opaque))
+					}
+					return getterVector(cl) + encObs(cl) + o
 				}, mode)
 			case 6:
 				if a.P != 2 {
